@@ -455,6 +455,19 @@ def make_history(rng, kind):
         rng.shuffle(kids)
         exprs.append(p.Sum(tuple(kids)))
         exprs.append(p.Product((kids[0], kids[-1])))
+    if rng.random() < 0.25:
+        # DIFFERENT wrapped children whose C text is identical (the sorted sum prints x + y and
+        # y + x alike; x**2 and x*x both print x * x): two names, two assignments, same code
+        a_, b_ = rng.sample(V, 2)
+        two = 2 if kind == "int" else 2.0
+        t1, t2 = rng.choice([(p.Sum((a_, b_)), p.Sum((b_, a_))),
+                             (p.Power(a_, 2), p.Product((a_, a_))),
+                             (p.Product((two, a_)), p.Product((a_, two)))])
+        pre = rng.choice(["s", "s", None])
+        k1, k2 = CSE(t1, pre), CSE(t2, pre)
+        exprs.append(p.Sum((k1, p.Product((k2, 3 if kind == "int" else 3.0)))))
+        exprs.append(p.Sum((k1, 1 if kind == "int" else 1.0)))     # the first one recurs later
+        exprs.append(p.Product((k2, k1)))
     if len(exprs) > 1 and rng.random() < 0.5:
         exprs.append(exprs[0])                      # the same expression again, later
     plan = []
